@@ -566,7 +566,7 @@ Proof.
       unfold jt_frame; vsimpl; repeat split. }
   pose proof (joint_frame _ _ _ Hj1 H2) as Hj2. clearbody s2.
   assert (Hb : jt_frame s2 (acked_counts_as_sent s2)).
-  { unfold acked_counts_as_sent. destruct (seq_gt _ _); unfold jt_frame; vsimpl; repeat split. }
+  { unfold acked_counts_as_sent. destruct (seq_gt _ _ && seq_lt _ _); unfold jt_frame; vsimpl; repeat split. }
   assert (Hfin : forall s3 : vsock, joint_rel 0 s3 ->
     match (match rv_phase (v_recovery s3) with
            | Recovering rc =>
